@@ -360,6 +360,62 @@ Section ExchangeFacts.
     - intro H. destruct (IH H) as [Hi [d' [Hin Hp]]]. split; [exact Hi|]. exists d'. split; [right; exact Hin|exact Hp].
   Qed.
 
+  (* ---- several exchanges on one Conn ---- *)
+  Lemma exchange_dgram_rest_fst (bufsize : nat) (qid : N) (ds : list bytes) :
+    fst (exchange_dgram_rest decodes bufsize qid ds) = exchange_dgram decodes bufsize qid ds.
+  Proof.
+    induction ds as [|d ds IH]; [reflexivity|]. cbn [exchange_dgram_rest exchange_dgram].
+    destruct (read_msg_dgram decodes bufsize d) as [p|c| |]; try reflexivity.
+    destruct (msg_id p =? qid); [reflexivity|exact IH].
+  Qed.
+
+  Lemma exchange_dgram_rest_skips (bufsize : nat) (qid : N) (fs : list bytes) (r : bytes) (later : list bytes) :
+    Forall (foreign bufsize qid) fs ->
+    (headerSize <= length (firstn bufsize r))%nat -> decodes (firstn bufsize r) = true ->
+    msg_id (firstn bufsize r) = qid ->
+    exchange_dgram_rest decodes bufsize qid (fs ++ r :: later) = (Ok (firstn bufsize r), later).
+  Proof.
+    intros Hf Hh Hd Hid. induction Hf as [|d fs [Hdh [Hdd Hdi]] _ IH].
+    - cbn [app exchange_dgram_rest]. rewrite (read_msg_dgram_ok bufsize r Hh Hd).
+      apply N.eqb_eq in Hid. rewrite Hid. reflexivity.
+    - cbn [app exchange_dgram_rest]. rewrite (read_msg_dgram_ok bufsize d Hdh Hdd).
+      apply N.eqb_neq in Hdi. rewrite Hdi. exact IH.
+  Qed.
+
+  (* the query advertises s octets: by its OPT record, or - without one - by Client.UDPSize *)
+  Definition advertises (client_size : N) (opt : option N) (s : N) : Prop :=
+    512 <= s /\ (opt = Some s \/ (opt = None /\ s = client_size)).
+
+  Lemma conn_udpsize_advertised (client_size conn_size : N) (opt : option N) (s : N) :
+    advertises client_size opt s -> conn_udpsize client_size conn_size opt = s.
+  Proof.
+    intros [Hs [->|[-> ->]]]; unfold conn_udpsize;
+      destruct (N.leb_spec 512 s) as [_|Hlt]; try reflexivity; lia.
+  Qed.
+
+  (* Whatever size the Conn was left with and whatever is still queued in front:
+     the matching reply of at most the advertised size is returned whole, and the
+     session goes on with the advertised size and what was queued behind it. *)
+  Lemma session_reply_whole (client_size conn_size : N) (qid : N) (opt : option N) (s : N)
+        (queue arrivals fs : list bytes) (r : bytes) (later : list bytes)
+        (xs : list (N * option N * list bytes)) :
+    advertises client_size opt s ->
+    queue ++ arrivals = fs ++ r :: later ->
+    Forall (foreign (N.to_nat s) qid) fs ->
+    lenN r <= s -> (headerSize <= length r)%nat -> decodes r = true -> msg_id r = qid ->
+    exchange_session decodes client_size conn_size queue ((qid, opt, arrivals) :: xs) =
+    Ok r :: exchange_session decodes client_size s later xs.
+  Proof.
+    intros Ha Hq Hf Hl Hh Hd Hid. cbn [exchange_session].
+    rewrite (conn_udpsize_advertised client_size conn_size opt s Ha).
+    destruct Ha as [Hs _].
+    assert (Hb : dgram_bufsize s = N.to_nat s) by (unfold dgram_bufsize; f_equal; lia).
+    rewrite Hb, Hq.
+    assert (Hr : firstn (N.to_nat s) r = r) by (apply firstn_all2; unfold lenN in Hl; lia).
+    rewrite (exchange_dgram_rest_skips (N.to_nat s) qid fs r later Hf);
+      rewrite ?Hr; try assumption. reflexivity.
+  Qed.
+
   (* ---- with a clock: the deadline is fixed when the request is written ---- *)
   Lemma arrived_before_app (deadline : N) (a b : list (N * bytes)) :
     arrived_before deadline (a ++ b) = arrived_before deadline a ++ arrived_before deadline b.
